@@ -1,9 +1,160 @@
 import NibabelModel.Model.C12
+import NibabelModel.Generated.C12FileTypes
 import Driver.Util
-/-! Line-protocol driver for C12: `C12 <op> <args...>` -> one observable line. -/
+/-! Line-protocol driver for C12: `C12 <op> <args...>` -> one observable line.
+    Strings travel percent-encoded (UTF-8 bytes; safe = alnum and `_.-~/`) with a leading `=`. -/
 namespace Nb.Drv.C12
+open Nb Nb.C12 Nb.C12.Gen
+
+def hexVal? (c : Char) : Option Nat :=
+  if '0' ≤ c ∧ c ≤ '9' then some (c.toNat - 48)
+  else if 'A' ≤ c ∧ c ≤ 'F' then some (c.toNat - 55)
+  else if 'a' ≤ c ∧ c ≤ 'f' then some (c.toNat - 87)
+  else none
+
+def decGo : List Char → Option Str
+  | [] => some []
+  | '%' :: a :: b :: r => do
+      let x ← hexVal? a
+      let y ← hexVal? b
+      let t ← decGo r
+      pure ((16 * x + y) :: t)
+  | '%' :: _ => none
+  | c :: r => do
+      let t ← decGo r
+      if c.toNat < 128 then pure (c.toNat :: t) else none
+
+/-- `=<percent-encoded>` -> byte codes -/
+def dec? (s : String) : Option Str :=
+  match s.toList with
+  | '=' :: r => decGo r
+  | _ => none
+
+def hexDigit (n : Nat) : Char := if n < 10 then Char.ofNat (48 + n) else Char.ofNat (55 + n)
+
+def safeByte (b : Nat) : Bool :=
+  (48 ≤ b && b ≤ 57) || (65 ≤ b && b ≤ 90) || (97 ≤ b && b ≤ 122) ||
+  b == 95 || b == 46 || b == 45 || b == 126 || b == 47
+
+def enc (s : Str) : String :=
+  String.ofList (s.flatMap fun b => if safeByte b then [Char.ofNat b] else ['%', hexDigit (b / 16), hexDigit (b % 16)])
+
+def encO : Option Str → String
+  | some s => enc s
+  | none => "!none"
+
+def asc (s : String) : Str := s.toList.map Char.toNat
+
+def rowByName? (s : String) : Option ClassRow := findRow classTable (asc s)
+
+def parseBool? (s : String) : Option Bool := if s = "1" then some true else if s = "0" then some false else none
+
+def showMap (m : FileMap) : String := "|".intercalate (m.map fun (k, v) => enc k ++ "=" ++ enc v)
+
+def showFM : Except Err FileMap → String
+  | .ok m => "ok " ++ showMap m
+  | .error _ => "ERR"
+
+/-- lexicographic order on byte strings (Python `sorted` on ASCII / UTF-8 names) -/
+def strLe : Str → Str → Bool
+  | [], _ => true
+  | _ :: _, [] => false
+  | a :: x, b :: y => if a < b then true else if b < a then false else strLe x y
+
+/-- strip the fake root the harness put in front of the relative name -/
+def stripRoot (root s : Str) : Str := if root.isPrefixOf s then s.drop root.length else s
+
+/-- `W1:K1,K2;W2:K3` — for each possibly-written class the classes whose header sniff accepts its header -/
+def parseSniffTable (s : String) : List (Str × List Str) :=
+  (s.splitOn ";").filterMap fun ent =>
+    match ent.splitOn ":" with
+    | [w, ks] => some (asc w, (ks.splitOn ",").filter (· ≠ "") |>.map asc)
+    | _ => none
+
+/-- what `nib.load(f)` followed by reading the data gives when exactly `files` exist: the class name,
+    `NOFILE` (the name itself, or a member the class needs, does not exist), `ERR` (ImageFileError) -/
+def loadObs (table : List ClassRow) (files : List Str) (accept : Str → Bool) (hdrKey : Str)
+    (optional : List Str) (f : Str) : String :=
+  if !files.contains f then "NOFILE"
+  else
+    match table.find? (fun r => extOK r f && (!r.sniffs ||
+        (match sniffFile hdrKey r f with
+         | .ok s => files.contains s && accept r.name
+         | .error _ => false))) with
+    | none => "ERR"
+    | some r =>
+      match filespecToFileMap r f with
+      | some (.ok m) => if m.all (fun kv => optional.contains kv.1 || files.contains kv.2) then enc r.name else "NOFILE"
+      | _ => "bad-op"
+
+def n1i := asc "Nifti1Image"
+def n1p := asc "Nifti1Pair"
+def n2i := asc "Nifti2Image"
+def n2p := asc "Nifti2Pair"
 
 def handle : List String → String
+  | ["fm", cls, name] =>
+      match rowByName? cls, dec? name with
+      | some r, some n =>
+          match filespecToFileMap r n with
+          | some res => showFM res
+          | none => "bad-op"
+      | _, _ => "bad-op"
+  | ["tf", cls, name, enforce, mc] =>
+      match rowByName? cls, dec? name, parseBool? enforce, parseBool? mc with
+      | some r, some n, some e, some m => showFM (typesFilenames n r.filesTypes r.suffixes e m)
+      | _, _, _, _ => "bad-op"
+  | ["tforig", cls, name] =>
+      match rowByName? cls, dec? name with
+      | some r, some n => showFM (typesFilenamesOrig n r.filesTypes r.suffixes)
+      | _, _ => "bad-op"
+  | ["parse", cls, name, mc] =>
+      match rowByName? cls, dec? name, parseBool? mc with
+      | some r, some n, some m =>
+          let p := parseFilename n r.filesTypes r.suffixes m
+          s!"{enc p.root}|{enc p.ext}|{encO p.ignored}|{encO p.guessed}"
+      | _, _, _ => "bad-op"
+  | ["sae", cls, name, mc] =>
+      match (if cls = "*" then some saeDefault else (rowByName? cls).map (·.suffixes)), dec? name, parseBool? mc with
+      | some sfx, some n, some m =>
+          let (a, b, c) := splitextAddext n sfx m
+          s!"{enc a}|{enc b}|{enc c}"
+      | _, _, _ => "bad-op"
+  | ["codec", name] =>
+      match dec? name with
+      | some n => toString (openerCodec openerKeys compressExtIcase n)
+      | none => "bad-op"
+  | ["ext", name] =>
+      match dec? name with
+      | some n => ",".intercalate ((classTable.filter (extOK · n)).map (enc ·.name))
+      | none => "bad-op"
+  | ["save", cls, root, name, sniffs] =>
+      match rowByName? cls, dec? root, dec? name with
+      | some k, some root, some n =>
+          let st := parseSniffTable sniffs
+          match saveClass classTable saveSuffixes [(n1i, n1p), (n2i, n2p)] [(n1p, n1i), (n2p, n2i)]
+                  [asc ".img", asc ".hdr"] [asc ".nii"] k n with
+          | .error _ => "ERR"
+          | .ok wname =>
+            match findRow classTable wname with
+            | none => "bad-op"
+            | some w =>
+              match filespecToFileMap w n with
+              | some (.ok m) =>
+                  let files := (m.map (·.2)).mergeSort strLe
+                  let fs := "|".intercalate (files.map fun f =>
+                    enc (stripRoot root f) ++ ":" ++ toString (openerCodec openerKeys compressExtIcase f))
+                  let sn := (st.lookup wname).getD []
+                  let all := m.map (·.2)
+                  let ld := fun (f : Str) => loadObs classTable all (fun c => sn.contains c) (asc "header") [asc "mat"] f
+                  let loads := ",".intercalate (files.map ld)
+                  let ser := if !w.serial then "none" else
+                    match toBytes ⟨fun _ b => b, fun _ b => b⟩ openerKeys compressExtIcase w [1] with
+                    | .ok _ => "ok"
+                    | .error _ => "ERR"
+                  s!"ok cls={enc wname} files={fs} load={ld n} loads={loads} ser={ser}"
+              | _ => "bad-op"
+      | _, _, _ => "bad-op"
   | _ => "bad-op"
 
 end Nb.Drv.C12
